@@ -32,9 +32,14 @@ SAN_ENV = {
 }
 
 
+TMPDIR = [None]
+
+
 def env():
     e = dict(os.environ)
     e.update(SAN_ENV)
+    if TMPDIR[0]:
+        e["SIM_TMP"] = TMPDIR[0]
     return e
 
 
@@ -320,6 +325,7 @@ def main():
     t0 = time.time()
     tmpdir = os.path.join(BUILD, "tmp.%d" % os.getpid())
     os.makedirs(tmpdir, exist_ok=True)
+    TMPDIR[0] = tmpdir
     try:
         return run(pid, P, t0, tmpdir)
     finally:
